@@ -24,6 +24,9 @@ var VerifDir = func() string {
 	return "/verif"
 }()
 
+// Out is where verdict lines go (the process's original stdout).
+var Out = os.Stdout
+
 // Seed returns VERIF_SEED (default 1).
 func Seed() int64 {
 	if v := os.Getenv("VERIF_SEED"); v != "" {
@@ -179,7 +182,7 @@ func (r *Run) Inconclusive(reason string) {
 	r.mu.Lock()
 	r.inconclusive = append(r.inconclusive, reason)
 	r.mu.Unlock()
-	fmt.Printf("INCONCLUSIVE property=%s %s\n", r.ID, reason)
+	fmt.Fprintf(Out, "INCONCLUSIVE property=%s %s\n", r.ID, reason)
 }
 
 // NumViolations returns the number of distinct unknown violation signatures so far.
@@ -220,7 +223,7 @@ func (r *Run) Violation(signature string, witness interface{}) {
 	r.mu.Unlock()
 
 	if v.Known {
-		fmt.Printf("KNOWN-FINDING: property=%s %s\n", r.ID, signature)
+		fmt.Fprintf(Out, "KNOWN-FINDING: property=%s %s\n", r.ID, signature)
 		return
 	}
 	if tooMany {
@@ -234,8 +237,8 @@ func (r *Run) Violation(signature string, witness interface{}) {
 	}, "", " ")
 	os.WriteFile(path, b, 0o644)
 	v.Replay = path
-	fmt.Printf("VIOLATION property=%s replay=%s\n", r.ID, path)
-	fmt.Printf("  signature: %s\n", signature)
+	fmt.Fprintf(Out, "VIOLATION property=%s replay=%s\n", r.ID, path)
+	fmt.Fprintf(Out, "  signature: %s\n", signature)
 }
 
 // Finish writes the evidence file and returns the process exit code.
@@ -312,25 +315,25 @@ func (r *Run) Finish() int {
 		keys = append(keys, k)
 	}
 	sort.Strings(keys)
-	fmt.Printf("%s %s seed=%d: evaluations=%d distinct_nontrivial=%d inconclusive=%d violations=%d known=%d wall=%.1fs\n",
+	fmt.Fprintf(Out, "%s %s seed=%d: evaluations=%d distinct_nontrivial=%d inconclusive=%d violations=%d known=%d wall=%.1fs\n",
 		r.ID, r.Tier, r.seed, r.evaluations, len(r.distinct), len(r.inconclusive), unknown, len(known), time.Since(r.start).Seconds())
 	for _, k := range keys {
-		fmt.Printf("  observed %-40s %d\n", k, r.counters[k])
+		fmt.Fprintf(Out, "  observed %-40s %d\n", k, r.counters[k])
 	}
 	for k, n := range sizes {
-		fmt.Printf("  distinct %-40s %d\n", k, n)
+		fmt.Fprintf(Out, "  distinct %-40s %d\n", k, n)
 	}
 	if unknown > 0 {
 		return 1
 	}
 	for name, min := range r.floors {
 		if r.counters[name] < min {
-			fmt.Printf("BROKEN-CHECK property=%s observed %s=%d below floor %d\n", r.ID, name, r.counters[name], min)
+			fmt.Fprintf(Out, "BROKEN-CHECK property=%s observed %s=%d below floor %d\n", r.ID, name, r.counters[name], min)
 			return 2
 		}
 	}
 	if len(r.distinct) < 2 || r.evaluations < 1 {
-		fmt.Printf("BROKEN-CHECK property=%s observed too few distinct cases\n", r.ID)
+		fmt.Fprintf(Out, "BROKEN-CHECK property=%s observed too few distinct cases\n", r.ID)
 		return 2
 	}
 	if len(r.inconclusive) > 0 {
